@@ -55,7 +55,9 @@ JudgeSeek(cs, q, a) ==
 (* Conn.ReadFirstOffset / ReadLastOffset / ReadOffset(time) / ReadOffsets  *)
 (***************************************************************************)
 JudgeReadOffset(cs, q, a) ==
-  LET e == AskError(cs, q.t, q.p, q.broker)
+  LET e0 == AskError(cs, q.t, q.p, q.broker)
+      \* a lookup by timestamp may fail on its own (lerrt) where first/last succeed
+      e  == IF e0 = 0 /\ q.kind = "time" /\ q.ts >= 0 /\ PartOf(cs, q.t, q.p).lerrt # 0 THEN PartOf(cs, q.t, q.p).lerrt ELSE e0
   IN  IF e # 0 THEN Fld("err", a.err = e)
       ELSE LET part == PartOf(cs, q.t, q.p)
            IN  Fld("err", a.err = 0) \cup
@@ -131,13 +133,16 @@ JudgeListOffsets(cs, q, a) ==
             ELSE LET part  == PartOf(cs, r.t, r.p)
                      asked == Asked(r.t, r.p)
                      times == {ts \in asked : ts >= 0}
-                 IN  Fld(w \o "error", r.err = 0)
+                     timedFail == part.lerrt # 0 /\ times # {}     \* the lookups by timestamp of this partition fail, the others succeed
+                 IN  Fld(w \o "error", r.err = IF timedFail THEN part.lerrt ELSE 0)
                        \cup Fld(w \o "first", r.first = IF FirstOffset \in asked THEN part.start ELSE -1)
                        \cup Fld(w \o "last", r.last = IF LastOffset \in asked THEN part.end ELSE -1)
                        \cup Fld(w \o "offsets",
-                                /\ \A ts \in times : \E j \in DOMAIN r.offsets : r.offsets[j][1] = OffsetAt(part, ts)
-                                /\ \A j \in DOMAIN r.offsets :
-                                      \E ts \in times : OffsetAt(part, ts) = r.offsets[j][1] /\ r.offsets[j][2] = ts)
+                                \* (what Offsets holds for failed lookups is not specified)
+                                timedFail \/
+                                (/\ \A ts \in times : \E j \in DOMAIN r.offsets : r.offsets[j][1] = OffsetAt(part, ts)
+                                 /\ \A j \in DOMAIN r.offsets :
+                                       \E ts \in times : OffsetAt(part, ts) = r.offsets[j][1] /\ r.offsets[j][2] = ts))
   IN  IF a.err # 0 THEN Fld("err", allUnreachable)
       ELSE Fld("partition list", got = want /\ Len(a.parts) = Cardinality(want))
              \cup UNION {One(i) : i \in DOMAIN a.parts}
